@@ -533,8 +533,9 @@ def main():
             if w[0] == "cidr":
                 fname = unhex(w[1])
                 dist["cidr-ok" if o.startswith("ok") else "cidr-none"] += 1
-                if o.startswith("ok "):
+                if i < len(out_m) and out_m[i].startswith("ok "):
                     c.nontrivial.add((tuple(cfgkey), short))
+                if o.startswith("ok "):
                     real = o.split()[1]
                     if sym:
                         jl.append(f"J inside {','.join(hexs(r) for r in roots)} {real}")
@@ -546,7 +547,7 @@ def main():
                 kind = o.split()[0] if o else "?"
                 if kind in dist:
                     dist[kind] += 1
-                if kind != "404":
+                if i < len(out_m) and out_m[i].split()[:1] not in (["404"], ["MISS"], []):
                     c.nontrivial.add((tuple(cfgkey), short))
                 if kind == "file":
                     body = unhex(o.split()[1]) if len(o.split()) > 1 else b""
